@@ -294,6 +294,84 @@ pub fn check(c: &Case, st: &mut Stats) {
     st.sample(|| json!({"case": c, "library_score": s, "minus_lattice_energy": -r.energy, "in_cell_pairs": r.in_cell_pairs, "image_pairs": r.image_pairs}));
 }
 
+/// States with several occupied sites of different multiplicity (public
+/// `PotentialState::initialise` with hand-made Wyckoff sites): the score is still minus the
+/// lattice energy per molecule, whatever the partition of the molecules into sites.
+pub fn check_multi_site(seed: u64, st: &mut Stats) {
+    use packing::wallpaper::{Wallpaper, WyckoffSite};
+    use packing::{CrystalFamily, Transform2};
+    st.eval();
+    let mut rng = crate::common::rng_for(seed, 333);
+    let group = ["p2", "p1", "p2mg", "p1m1"][rng.gen_range(0, 4)];
+    let wg = match libx::lib_group(group) {
+        Ok(g) => g,
+        Err(_) => return,
+    };
+    let general = match WyckoffSite::new(&wg) {
+        Ok(s) => s,
+        Err(_) => return,
+    };
+    let one = |ops: &[&str]| WyckoffSite { letter: 'b', symmetries: ops.iter().filter_map(|o| Transform2::from_operations(o).ok()).collect(), num_rotations: 1, mirror_primary: false, mirror_secondary: false };
+    // extra sites of multiplicity 1 (and 2): fewer copies than the general position
+    let mut sites = vec![general.clone()];
+    match rng.gen_range(0, 3) {
+        0 => sites.push(one(&["x,y"])),
+        1 => {
+            sites.push(one(&["x,y"]));
+            sites.push(one(&["x,y"]));
+        }
+        _ => {
+            sites.push(one(&["x,y", "-x,-y"]));
+            sites.push(one(&["x,y"]));
+        }
+    }
+    let shape = if rng.gen_bool(0.3) { LJShape2::circle() } else { LJShape2::from_trimer(0.637556, 120., 1.) };
+    let family = if libx::is_oblique(group) { CrystalFamily::Monoclinic } else { CrystalFamily::Orthorhombic };
+    let state0 = PotentialState::initialise(shape, Wallpaper { name: group.to_string(), family }, &sites);
+    // spread the sites out and choose the cell through JSON values (exact doubles)
+    let mut v = match serde_json::to_value(&state0) {
+        Ok(v) => v,
+        Err(_) => return,
+    };
+    let nmol: usize = sites.iter().map(|s| s.symmetries.len()).sum();
+    v["cell"]["length"] = json!(rng.gen_range(2.2, 4.) * (nmol as f64).sqrt());
+    v["cell"]["ratio"] = json!(rng.gen_range(0.6, 1.));
+    if libx::is_oblique(group) {
+        v["cell"]["angle"] = json!(rng.gen_range(1.0, std::f64::consts::PI / 2.));
+    }
+    for i in 0..sites.len() {
+        v["occupied_sites"][i]["x"] = json!(rng.gen_range(-0.5, 0.5));
+        v["occupied_sites"][i]["y"] = json!(rng.gen_range(-0.5, 0.5));
+        v["occupied_sites"][i]["angle"] = json!(rng.gen_range(0., 6.28));
+    }
+    let state: PotentialState<LJShape2> = match serde_json::from_value(v) {
+        Ok(s) => s,
+        Err(_) => return,
+    };
+    let atoms = lj_atoms(&state.shape);
+    let pl: Vec<Affine> = state.cartesian_positions().map(|t| to_affine(&t)).collect();
+    let lat = lattice_of(&state.cell);
+    let r = reference(&atoms, &pl, &lat, 40.);
+    let s = match state.score() {
+        Some(s) if s.is_finite() => s,
+        _ => return,
+    };
+    if r.degenerate {
+        return;
+    }
+    st.nontrivial(hash64(&[334, seed]));
+    st.count("multi_site_states");
+    let tol = tolerance(&r);
+    if !((s + r.energy).abs() <= tol) && !(r.beyond_third_shell > 0.5 * tol) {
+        st.violation(Violation {
+            kind: "c03.multisite".into(),
+            signature: "PotentialState::score:not-the-lattice-energy-per-molecule:several-sites".into(),
+            case: json!({"seed": seed}),
+            detail: json!({"group": group, "site_multiplicities": sites.iter().map(|x| x.symmetries.len()).collect::<Vec<_>>(), "molecules": pl.len(), "library_score": s, "minus_lattice_energy_per_molecule": -r.energy, "tolerance": tol}),
+        });
+    }
+}
+
 /// translations of the origin that map the group's symmetry elements onto themselves
 fn normaliser_shift<R: Rng>(rng: &mut R, group: &str) -> [f64; 2] {
     let half = |rng: &mut R| [0., 0.5][rng.gen_range(0, 2)];
@@ -337,12 +415,15 @@ pub fn gen_case<R: Rng>(rng: &mut R) -> Case {
 }
 
 pub fn run(ctx: &Ctx) {
-    ctx.set_rule("Lennard-Jones states of all 7 groups x {circle (uncut), trimers over the CLI's ranges (cutoff 3.5)} x cells (ratio 0.25-1, oblique angle pi/6-pi/2) at densities from strongly overlapping (0.3 molecule areas per molecule) to dilute (6), sites incl. special positions. Reference: exhaustive sum over EVERY pair of distinct molecule images within cutoff + extents (uncut: 40 sigma), each once, divided by N; pair kernel = the library's LJ2::energy (checked by C13) and, for like particles, the independent 12-6 law. Tolerance 1e-9 of the summed term magnitudes (uncut: 3% of the attractive sum). Metamorphic: a copy moved across a cell face (1/2-1e-9 vs -1/2+1e-9) and origin shifts by the group's normaliser translations must not change the score. Non-trivial = at least one in-cell pair and one image pair carry energy; distinct by quantised parameters");
+    ctx.set_rule("Lennard-Jones states of all 7 groups x {circle (uncut), trimers over the CLI's ranges (cutoff 3.5)} x cells (ratio 0.25-1, oblique angle pi/6-pi/2) at densities from strongly overlapping (0.3 molecule areas per molecule) to dilute (6), sites incl. special positions. Reference: exhaustive sum over EVERY pair of distinct molecule images within cutoff + extents (uncut: 40 sigma), each once, divided by N; pair kernel = the library's LJ2::energy (checked by C13) and, for like particles, the independent 12-6 law. Tolerance 1e-9 of the summed term magnitudes (uncut: 3% of the attractive sum). Also states with several occupied sites of different multiplicity (PotentialState::initialise with hand-made sites). Metamorphic: a copy moved across a cell face (1/2-1e-9 vs -1/2+1e-9) and origin shifts by the group's normaliser translations must not change the score. Non-trivial = at least one in-cell pair and one image pair carry energy; distinct by quantised parameters");
     ctx.assume("pair energies are the library's own (C13 decides them); placements are read from cartesian_positions()");
     let n = ctx.tier.pick(5_000u64, 300_000u64);
     par_shards(ctx, 3, 64, |_, rng, st| {
         for _ in 0..n {
             check(&gen_case(rng), st);
+        }
+        for _ in 0..(n / 50).max(5) {
+            check_multi_site(rng.gen(), st);
         }
     });
     ctx.set_min_nontrivial(2_000);
@@ -350,7 +431,9 @@ pub fn run(ctx: &Ctx) {
 
 pub fn replay(ctx: &Ctx, case: &Value) {
     let mut st = Stats::new();
-    if let Ok(c) = serde_json::from_value::<Case>(case.clone()) {
+    if let (Some(seed), true) = (case["seed"].as_u64(), case.get("group").is_none()) {
+        check_multi_site(seed, &mut st);
+    } else if let Ok(c) = serde_json::from_value::<Case>(case.clone()) {
         check(&c, &mut st);
     }
     ctx.merge(st);
